@@ -7,7 +7,7 @@ for m in "$@"; do
   name=$(basename "$m" .patch); pid=${name%%_*}
   s=/var/tmp/mutrun.$name; rm -rf $s; rsync -a --exclude target --exclude .git /repo/ $s/
   if ! (cd $s && patch -p1 -s < /verif/$m); then echo "$name PATCH-FAILED"; rm -rf $s; continue; fi
-  ./check $pid --repo $s > /var/tmp/mutrun.$name.log 2>&1; rc=$?
+  VERIF_NO_REPLAY=1 ./check $pid --repo $s > /var/tmp/mutrun.$name.log 2>&1; rc=$?
   echo "$name rc=$rc $(grep -h 'failed obligation' /var/tmp/mutrun.$name.log | sed 's/ -- .*//' | sort -u | tr '\n' ' ')"
   rm -rf $s
 done
